@@ -70,6 +70,7 @@ pub struct World {
     pub select_seed: u64,        // seed of tokio's runtime RNG (select! polling order), part of the schedule line
     pub other_depth: usize,      // how many of the other hash's RPCs are answered before it is frozen
     pub other_frozen_log: usize, // number of requests the other hash had issued when it was frozen (this lifetime)
+    pub waiting_since: Option<u64>, // C11: since when the held set has had no request outstanding (value before the current step)
     pub idle_since: Option<u64>, // C11: since when (virtual s) HTLCs are held with no RPC outstanding and no pay running
     pub no_pay: Vec<u64>,        // C07: calls of a set that was rejected while incomplete (no pay until they are answered)
     pub hold: Vec<u64>,          // parked requests (by seq) the cooperative environment leaves unanswered for now
@@ -86,7 +87,7 @@ impl World {
         { let mut n = node.lock().unwrap(); n.height = 1000; n.node_id = pubkey(LOCAL).to_string(); }
         World { node, hash_hex: hash.to_string(), hash: hash.to_byte_array().to_vec(),
             inv_fixed: make_invoice(&pre, Some(1_000_000), 0, 2), inv_open: make_invoice(&pre, None, 0, 2), open, inv_amount: 1_000_000, cfg,
-            calls: vec![], aids: vec![], acts: vec![], obs: vec![], life: 0, fault_read: false, lost_write: false, key_reported: false, wfault: false, fault_kind: String::new(), height: 1000, model_wall: 1_000_000, stamp: BTreeMap::new(), mono: 0, wait_started: None, next_part: 1, restart_aid: None, init_snap: None, other: None, other_call: None, select_seed: 0, other_depth: 0, other_frozen_log: 0, idle_since: None, no_pay: vec![], hold: vec![] }
+            calls: vec![], aids: vec![], acts: vec![], obs: vec![], life: 0, fault_read: false, lost_write: false, key_reported: false, wfault: false, fault_kind: String::new(), height: 1000, model_wall: 1_000_000, stamp: BTreeMap::new(), mono: 0, wait_started: None, next_part: 1, restart_aid: None, init_snap: None, other: None, other_call: None, select_seed: 0, other_depth: 0, other_frozen_log: 0, waiting_since: None, idle_since: None, no_pay: vec![], hold: vec![] }
     }
     fn aid_canon(&mut self, aid: &str) -> usize {
         if let Some(p) = self.aids.iter().position(|a| a == aid) { return p + 1; }
@@ -260,7 +261,9 @@ async fn observe(w: &mut World, ctx: &mut Ctx, pay_seen: &mut Vec<u64>, act: &st
     if w.aids.is_empty() && !w.fault_read && !resps.is_empty() && resps.iter().all(|(_, r)| r == "fail:2019") {
         let set: Vec<&Call> = resps.iter().map(|(i, _)| &w.calls[*i as usize]).collect();
         if !set.iter().any(|c| c.rejecting) && set.iter().all(|c| c.is_tramp) {
-            let first = set.iter().map(|c| c.t).min().unwrap_or(0);
+            // "since the plugin began waiting": since the stored state was read and nothing was outstanding any more
+            // (`waiting_since`); the first arrival is an upper bound for it
+            let first = w.waiting_since.unwrap_or_else(|| set.iter().map(|c| c.t).min().unwrap_or(0)).max(set.iter().map(|c| c.t).min().unwrap_or(0));
             if w.mono - first < w.cfg.mpp { ctx.violation("C11", "timeout-early", &format!("htlcs {:?} failed {} s after the first arrived (mpp timeout {} s, no policy rejection, no earlier attempt) REPLAY[{}]", set.iter().map(|c| c.id).collect::<Vec<_>>(), w.mono - first, w.cfg.mpp, replay(w))); }
         }
     }
@@ -274,6 +277,8 @@ async fn observe(w: &mut World, ctx: &mut Ctx, pay_seen: &mut Vec<u64>, act: &st
     }
     // C13/C10: an HTLC that is not a trampoline request (amount TLV contradicting a fixed-amount invoice) is answered at once
     for c in w.calls.iter() { if !c.is_tramp && c.resp.is_none() && c.life == w.life { ctx.violation("C13,C10", "non-trampoline-held", &format!("htlc {} is not a trampoline request but was not answered at once REPLAY[{}]", c.id, replay(w))); } }
+    // (kept for the next step) the held set has nothing outstanding since …
+    if !held(w).is_empty() && out.is_empty() { if w.waiting_since.is_none() { w.waiting_since = Some(w.mono); } } else { w.waiting_since = None; }
     if panicked { ctx.violation("C06", "system-panic", &format!("an htlc_accepted call panicked REPLAY[{}]", replay(w))); }
     format!("out=[{}] resp=[{}] pay=[{}]", out.join(","), resps.iter().map(|(i, s)| format!("{}={}", i, s)).collect::<Vec<_>>().join(","), pays.join(","))
 }
@@ -608,14 +613,17 @@ pub fn run_case(ctx: &mut Ctx, rng: &mut Rng, sock: &str, open: bool, cfg: SCfg,
                 // answer the first `other_depth` RPCs of hash B truthfully (its pay command, the 4th, completes), then never again
                 let (ohex, oinv2) = { let o = w.other.as_ref().unwrap(); (o.0.clone(), o.2.clone()) };
                 let is_b = |p: &node::Parked| { let t = p.params.to_string(); p.method != "getinfo" && (t.contains(ohex.as_str()) || t.contains(oinv2.as_str())) };
-                for _ in 0..w.other_depth {
+                let answered = match w.other_depth { 6 => 4, 7 => 5, d => d };
+                for _ in 0..answered {
                     let done = {
                         let mut n = w.node.lock().unwrap();
                         match n.parked.iter().position(|p| is_b(p) && p.served.is_none()) {
                             Some(i) => {
                                 let (m2, pr) = (n.parked[i].method.clone(), n.parked[i].params.clone());
                                 // hash B's pay command completes with B's own preimage (78): B is then frozen in its bookkeeping
-                                let r = if m2 == "pay" { Some(Ok(node::pay_reply_json(&ohex, "complete", 78, false))) } else { n.serve_truthful(&m2, &pr) };
+                                // depths 4–5: B's pay completes (78) and B is frozen in its bookkeeping; depths 6–7: it returns
+                                // `pending` with no parts and B is frozen inside wait_payment (at the first / second listing)
+                                let r = if m2 == "pay" { Some(Ok(if w.other_depth >= 6 { node::pay_reply_json(&ohex, "pending", 0, false) } else { node::pay_reply_json(&ohex, "complete", 78, false) })) } else { n.serve_truthful(&m2, &pr) };
                                 let mut pk = n.parked.remove(i);
                                 if let (Some(tx), Some(r)) = (pk.tx.take(), r) { let _ = tx.send(r); }
                                 false
@@ -705,6 +713,7 @@ pub fn run_case(ctx: &mut Ctx, rng: &mut Rng, sock: &str, open: bool, cfg: SCfg,
         w.init_snap = None;
         w.no_pay.clear();
         w.idle_since = None;
+        w.waiting_since = None;
         w.obs.push("out=[] resp=[] pay=[]".into());
         ctx.count("crashes");
     }
@@ -905,7 +914,7 @@ pub fn run(mut ctx: Ctx) {
             cfg.base = *rng.pick(&[0u32, 1, 1000, 4_294_967_295]);
             cfg.ppm = *rng.pick(&[0u32, 1, 5000, 1_000_000, 4_294_967_295]);
         }
-        let g = Gen { faults_w: i % 3 == 1, faults_r: ctx.thorough && i % 10 == 9, crashes: i % 2 == 1, lost: ctx.thorough && i % 17 == 16, replay: false, coop: None, other: i % 4 == 2, other_depth: (i / 4) % 7, hold_first: 0, select_seed: None };
+        let g = Gen { faults_w: i % 3 == 1, faults_r: ctx.thorough && i % 10 == 9, crashes: i % 2 == 1, lost: ctx.thorough && i % 17 == 16, replay: false, coop: None, other: i % 4 == 2, other_depth: (i / 4) % 8, hold_first: 0, select_seed: None };
         let len = 25 + rng.below(40) as usize;
         run_case(&mut ctx, &mut rng, &sock, open, cfg, vec![], len, &g);
     }
